@@ -308,3 +308,180 @@ impl Check for C20 {
 
 #[allow(dead_code)]
 fn unused(_: PathBuf) {}
+
+// ---------------------------------------------------------------------------------------
+// the swap clause: exchanging the two programs exchanges axioms and conjectures between directions
+
+use crate::generators::asp as ga;
+use crate::ops;
+use crate::safe_print::{self, Style};
+use anthem::syntax_tree::asp::mini_gringo as asp;
+use anthem::syntax_tree::fol::sigma_0 as fol;
+use anthem::verif::ProblemData;
+
+#[derive(Clone, Debug)]
+pub enum SwapCase {
+    Strong { left: asp::Program, right: asp::Program, mu: bool, choices: Vec<u16> },
+    External { choices: Vec<u16> },
+}
+
+pub struct Swap;
+
+/// a problem without its names: (sorted axioms, conjectures)
+fn shape(p: &ProblemData) -> (Vec<String>, Vec<String>) {
+    let mut ax: Vec<String> = p.formulas.iter().filter(|f| !f.conjecture).map(|f| f.formula.to_string()).collect();
+    ax.sort();
+    let cj: Vec<String> = p.formulas.iter().filter(|f| f.conjecture).map(|f| f.formula.to_string()).collect();
+    (ax, cj)
+}
+
+fn family(problems: &[ProblemData], prefix: &str) -> Vec<(Vec<String>, Vec<String>)> {
+    let mut v: Vec<_> = problems.iter().filter(|p| p.name.starts_with(prefix)).map(shape).collect();
+    v.sort();
+    v
+}
+
+fn opposite(d: fol::Direction) -> fol::Direction {
+    match d {
+        fol::Direction::Forward => fol::Direction::Backward,
+        fol::Direction::Backward => fol::Direction::Forward,
+        fol::Direction::Universal => fol::Direction::Universal,
+    }
+}
+
+fn swap_cfg() -> ga::AspCfg {
+    ga::AspCfg {
+        preds: vec![("p".into(), 1), ("q".into(), 1), ("r".into(), 2), ("s".into(), 0), ("t".into(), 1), ("u".into(), 0)],
+        vars: vec!["X".into(), "Y".into()],
+        syms: vec!["a".into(), "b".into()],
+        num_lo: 0,
+        num_hi: 3,
+        term_depth: 1,
+        op_weights: [3, 2, 1, 1, 1, 2],
+        max_body: 3,
+        max_rules: 3,
+        exotic_leaf_weight: 1,
+    }
+}
+
+impl Check for Swap {
+    type Case = SwapCase;
+    fn name(&self) -> &'static str {
+        "swap"
+    }
+    fn cases(&self, tier: Tier) -> usize {
+        tier.pick(30_000, 600_000)
+    }
+    fn strategy(&self, _tier: Tier) -> BoxedStrategy<SwapCase> {
+        let c = swap_cfg();
+        prop_oneof![
+            2 => (ga::program(&c), ga::program(&c), any::<bool>(), gt::choices(8)).prop_map(|(left, right, mu, choices)| SwapCase::Strong { left, right, mu, choices }),
+            1 => gt::choices(160).prop_map(|choices| SwapCase::External { choices }),
+        ]
+        .boxed()
+    }
+    fn rule(&self) -> String {
+        "two unrelated random programs (strong equivalence, tau-star and mu) or a program-vs-program external task with disjoint private names, under generated decomposition / direction / simplify / eq-break flags; oracle: the problems emitted for (A, B) in one direction and the problems emitted for (B, A) in the opposite direction are the same multiset of (set of axioms, conjectures), formula and problem names aside, and no problem of an unrequested direction appears; non-trivial = the two programs differ and at least one problem was emitted; distinct by programs + flags".into()
+    }
+    fn run(&self, case: &SwapCase) -> Outcome {
+        let (ab, ba, flags, description, differ) = match case {
+            SwapCase::Strong { left, right, mu, choices } => {
+                let mut c = Chooser::new(choices.clone());
+                let flags = gt::flags(&mut c);
+                let mut back = flags.clone();
+                back.direction = opposite(flags.direction);
+                let ab = ops::strong_problems(left, right, &flags, *mu);
+                let ba = ops::strong_problems(right, left, &back, *mu);
+                let d = format!(
+                    "strong equivalence mu={mu}\n  A: {}\n  B: {}\n  flags: {}",
+                    safe_print::asp_program(left, &Style::plain()),
+                    safe_print::asp_program(right, &Style::plain()),
+                    flags.describe()
+                );
+                (ab, ba, flags, d, left != right)
+            }
+            SwapCase::External { choices } => {
+                let mut c = Chooser::new(choices.clone());
+                let mut names = gt::Names::clean(&mut c);
+                let p = |s: &str, a: usize| (s.to_string(), a);
+                names.left_private = vec![p("a", 1), p("b", 1)];
+                names.right_private = vec![p("c", 1), p("d", 1)];
+                let task = gt::external_task_with(&mut c, names);
+                let flags = gt::flags(&mut c);
+                let Some(left) = task.left_program.clone() else {
+                    return Outcome::skip("specification task (no second program to swap)");
+                };
+                let mut swapped = task.clone();
+                swapped.left_program = Some(task.right.clone());
+                swapped.right = left.clone();
+                let mut back = flags.clone();
+                back.direction = opposite(flags.direction);
+                let ab = match ops::external_problems(&task, &ops::empty_outline(), &flags, false) {
+                    Ok((p, _)) => p,
+                    Err(_) => return Outcome::skip("task refused (reported by C09)"),
+                };
+                let ba = match ops::external_problems(&swapped, &ops::empty_outline(), &back, false) {
+                    Ok((p, _)) => p,
+                    Err((v, m)) => {
+                        return Outcome::fail(
+                            "swapped-task-refused",
+                            format!("C20: the task is accepted but refused with the programs swapped ({v}): {m}\n{}", crate::checks::problems::describe_external(&task)),
+                        );
+                    }
+                };
+                let d = format!("{}\n  flags: {}", crate::checks::problems::describe_external(&task), flags.describe());
+                (ab, ba, flags, d, left != task.right)
+            }
+        };
+        for (x, y) in [("forward", "backward"), ("backward", "forward")] {
+            let (fa, fb) = (family(&ab, x), family(&ba, y));
+            if fa != fb {
+                let only_a: Vec<_> = fa.iter().filter(|p| !fb.contains(p)).take(1).collect();
+                let only_b: Vec<_> = fb.iter().filter(|p| !fa.contains(p)).take(1).collect();
+                return Outcome::fail(
+                    format!("swap-mismatch:{x}"),
+                    format!(
+                        "C20: the {x} problems of (A, B) are not the {y} problems of (B, A): {} vs {} problems\n  only in (A, B): {only_a:?}\n  only in (B, A): {only_b:?}\n{description}",
+                        fa.len(),
+                        fb.len()
+                    ),
+                );
+            }
+        }
+        let wanted_f = matches!(flags.direction, fol::Direction::Universal | fol::Direction::Forward);
+        let wanted_b = matches!(flags.direction, fol::Direction::Universal | fol::Direction::Backward);
+        if (!wanted_f && ab.iter().any(|p| p.name.starts_with("forward"))) || (!wanted_b && ab.iter().any(|p| p.name.starts_with("backward"))) {
+            return Outcome::fail("unrequested-direction", format!("C20: problems of a direction that was not requested\n{description}"));
+        }
+        Outcome::pass(differ && !ab.is_empty(), hash64(&description))
+            .label(match case {
+                SwapCase::Strong { .. } => "strong",
+                SwapCase::External { .. } => "external",
+            })
+            .label(format!("direction={:?}", flags.direction))
+    }
+    fn describe(&self, case: &SwapCase) -> Value {
+        match case {
+            SwapCase::Strong { left, right, mu, choices } => json!({
+                "kind": "strong",
+                "left": safe_print::asp_program(left, &Style::plain()),
+                "right": safe_print::asp_program(right, &Style::plain()),
+                "mu": mu, "choices": choices,
+            }),
+            SwapCase::External { choices } => json!({"kind": "external", "choices": choices}),
+        }
+    }
+    fn from_replay(&self, j: &Value) -> Option<SwapCase> {
+        let choices: Vec<u16> = j["choices"].as_array()?.iter().map(|x| x.as_u64().unwrap() as u16).collect();
+        match j["kind"].as_str()? {
+            "strong" => Some(SwapCase::Strong {
+                left: j["left"].as_str()?.parse().ok()?,
+                right: j["right"].as_str()?.parse().ok()?,
+                mu: j["mu"].as_bool()?,
+                choices,
+            }),
+            "external" => Some(SwapCase::External { choices }),
+            _ => None,
+        }
+    }
+}
